@@ -452,7 +452,8 @@ def check_repeat(model: Model, rep: Report, rule: str):
     if f is None:
         raise AnalysisError("CircuitCompositeOperation.repeat not found")
     ev = Evaluator(model, inline_methods=False)
-    paths = PathEnumerator(ev).function_paths(f, self_cls=K)
+    pe_ = PathEnumerator(ev)
+    paths = pe_.function_paths(f, self_cls=K)
     self_t = sym(f.self_name)
     times = sym([p for p in f.param_names if p != f.self_name][0])
     construct = "CircuitCompositeOperation.repeat"
@@ -483,7 +484,8 @@ def check_repeat(model: Model, rep: Report, rule: str):
         # freshness is an identity question (an object created before the loop is ONE object however it is
         # named), so it is decided on the syntax: the argument must be a .copy() call evaluated inside the loop
         # body on a name bound, before the loop, to self.copy()
-        ext_node = exts_nodes(lp.node, f.self_name)
+        norm_body = ast.Module(body=list(pe_.norm.body(f, f.node)), type_ignores=[])
+        ext_node = exts_nodes(lp.node, f.self_name, scope=norm_body)
         fresh_of_snapshot = bool(ext_node) and all(
             _fresh_copy_expr(_call_first_arg(n), lp.node, set(snap_names)) for n in ext_node)
         if not fresh_of_snapshot and lp.extra.get("mapped_elt") is not None and arg == lp.extra["mapped_elt"] and is_call_of(arg, "copy") \
@@ -544,11 +546,16 @@ def _k6(model: Model, rep: Report):
     check_registry_copy(model, rep, "C05.K6")
 
 
-def exts_nodes(loop: ast.AST, self_name: str) -> List[ast.Call]:
+def exts_nodes(loop: ast.AST, self_name: str, scope: Optional[ast.AST] = None) -> List[ast.Call]:
+    # names that denote self: self, and a local bound to self (an accumulator that is only ever re-bound to what self.extend hands back)
+    names = {self_name}
+    for n in ast.walk(scope if scope is not None else loop):
+        if isinstance(n, ast.Assign) and isinstance(n.value, ast.Name) and n.value.id == self_name:
+            names |= {t.id for t in n.targets if isinstance(t, ast.Name)}
     out = []
     for n in ast.walk(loop):
         if isinstance(n, ast.Call) and isinstance(n.func, ast.Attribute) and n.func.attr == "extend" \
-                and isinstance(n.func.value, ast.Name) and n.func.value.id == self_name:
+                and isinstance(n.func.value, ast.Name) and n.func.value.id in names:
             out.append(n)
     return out
 
@@ -574,6 +581,12 @@ def _fresh_copy_expr(e: Optional[ast.expr], loop: ast.AST, snapshots: set, depth
         return bool(binds) and all(n.value is not None and _fresh_copy_expr(n.value, loop, snapshots, depth + 1) for n in binds)
     if isinstance(e, ast.Call) and isinstance(e.func, ast.Attribute) and e.func.attr == "copy" and not e.args and not e.keywords:
         v = e.func.value
+        if isinstance(v, ast.Name) and v.id not in snapshots:
+            # an alias taken inside the loop: ``s = snapshot`` ... ``s.copy()``
+            binds = [n for n in ast.walk(loop) if isinstance(n, (ast.Assign, ast.AnnAssign))
+                     and any(isinstance(t, ast.Name) and t.id == v.id for t in (n.targets if isinstance(n, ast.Assign) else [n.target]))]
+            if binds and all(isinstance(n.value, ast.Name) and n.value.id in snapshots for n in binds):
+                return True
         if isinstance(v, ast.Name) and v.id in snapshots:
             rebound = [n for n in ast.walk(loop) if isinstance(n, (ast.Assign, ast.AnnAssign, ast.AugAssign))
                        and any(isinstance(t, ast.Name) and t.id == v.id
